@@ -69,6 +69,7 @@ def add_combinators(unit, src, which, run):
     for f in which:
         sn = Snippet(src.fn(f, impl=r'Predicate'), 'Predicate::' + f)
         rules.strip_vis_attrs(sn)
+        rules.split_or_guard_arms(sn)
         sn.rw('R4', r'\*(\w+)\s*&\s*(\w+)', r'Predicate::and(*\1, \2)')
         sn.rw('R4', r'\b(\w+)\.as_ref\(\)\s*==\s*&(\w+)', r'*\1 == \2')  # Box::as_ref(&b) == &x  <=>  *b == x
         sn.rw('R4', r'set!\s*\{\s*(\w+)\s*,\s*(\w+)\s*\}', r'Set::pair(\1, \2)')
